@@ -59,7 +59,8 @@ SENSITIVITY = {
         # but the bugged model reports an index out of range
         ("StrFields", "bugint1", "Soundness"),
         ("StrFields", "bugint2", "Precision"),
-        ("StrFields", "strict2", "NoCrashStrict"),  # the int("\u00b2") internal error is real
+        # seeded model bug: the code before repo 0e517b7 (str.isdigit() instead of isdecimal(): int("\u00b2") raises)
+        ("StrFields", "bugdigit", "NoCrash"),
     ],
 }
 
